@@ -55,8 +55,8 @@ def run(ctx):
     ctx.tlc_check("DirLock.tla", ctx.q("c41_exh_quick.cfg", "c41_exh_thorough.cfg"), coverage=True, require_actions=props)
     # (a) every interleaving of the scripted programs
     progs = ctx.q([("c41_prog_qwait.cfg", None), ("c41_prog_qfail.cfg", None), ("c41_prog_crash.cfg", 40)],
-                  [("c41_prog_qwait.cfg", None), ("c41_prog_qfail.cfg", None), ("c41_prog_qskip.cfg", None), ("c41_prog_crash.cfg", None),
-                   ("c41_prog_t.cfg", 500)])
+                  [("c41_prog_qwait.cfg", None), ("c41_prog_qfail.cfg", None), ("c41_prog_qskip.cfg", None), ("c41_prog_crash.cfg", 400),
+                   ("c41_prog_t.cfg", 240)])
     cases, spaces = [], []
     for cfg, sample in progs:
         r = ctx.tlc_check("DirLock.tla", cfg, workers=4)
@@ -70,7 +70,7 @@ def run(ctx):
         for b in bs:
             cases.append({"steps": b, "src": cfg})
     # (b) random behaviours of the free model (all options, crashes, index faults)
-    beh = ctx.tlc_behaviours("DirLock.tla", ctx.q("c41_sim_quick.cfg", "c41_sim_thorough.cfg"), num=ctx.q(240, 1500), depth=ctx.q(12, 18))
+    beh = ctx.tlc_behaviours("DirLock.tla", ctx.q("c41_sim_quick.cfg", "c41_sim_thorough.cfg"), num=ctx.q(240, 900), depth=ctx.q(12, 18))
     # stratify the sample by what the model says happens: first the behaviours in which a read-only process loads a
     # journal with a bad index / a torn tail (the critical situations of the statement), then the rest
     def ro_load(b, pred):
@@ -78,10 +78,18 @@ def run(ctx):
     bad_idx = [b for b in beh if ro_load(b, lambda d: d["idx"] == "bad")]
     torn = [b for b in beh if b not in bad_idx and ro_load(b, lambda d: d["jtorn"])]
     rest = [b for b in beh if b not in bad_idx and b not in torn]
-    n_sim = ctx.q(90, 500)
+    n_sim = ctx.q(80, 240)
     beh = (bad_idx[:n_sim // 3] + torn[:n_sim // 3] + rest)[:n_sim]
     for b in beh:
         cases.append({"steps": b, "src": "sim"})
+    # a second generator with fewer alternatives per state (2 processes, one open option) reaches the index / torn-tail
+    # situations far more often; only those behaviours are taken from it
+    beh2 = ctx.tlc_behaviours("DirLock.tla", ctx.q("c41_simidx_quick.cfg", "c41_simidx_thorough.cfg"), num=ctx.q(300, 1200), depth=ctx.q(12, 18),
+                              seed=ctx.seed + 500)
+    bad2 = [b for b in beh2 if ro_load(b, lambda d: d["idx"] == "bad")]
+    torn2 = [b for b in beh2 if b not in bad2 and ro_load(b, lambda d: d["jtorn"])]
+    for b in bad2[:ctx.q(30, 120)] + torn2[:ctx.q(15, 60)]:
+        cases.append({"steps": b, "src": "simidx"})
     hist = {}
     for c in cases:
         for s in c["steps"]:
